@@ -68,14 +68,19 @@ class Op:
         s.op, s.a = 'paste', (b[0], b[1], b[2], b[3], v, old)
 
     def __pow__(s, n):
-        if n == 2 and s.kind == 'rfld': return Op('rsq', s, shape=s._shape, kind='rfld')
+        if n == 2 and s.kind == 'rfld': return Op('rmul_f', s, s, shape=s._shape, kind='rfld')      # x ** 2 and x * x are the same term
         raise shim.TraceError('power of a field term')
 
     def __bool__(s): raise shim.TraceError('truth value of a field term')
     def __mul__(s, o):
         if isinstance(o, _Sink): return o          # loss bookkeeping (masks, targets) is outside the model
+        if isinstance(o, Op) and s.kind == 'rfld' and o.kind == 'rfld': return Op('rmul_f', s, o, shape=s._shape, kind='rfld')
         raise shim.TraceError('arithmetic on a field term')
-    __rmul__ = __add__ = __radd__ = __sub__ = __rsub__ = __truediv__ = __neg__ = __mul__
+    def __rmul__(s, o):
+        if isinstance(o, _Sink): return o
+        raise shim.TraceError('arithmetic on a field term')
+    def _noarith(s, *a): raise shim.TraceError('arithmetic on a field term')
+    __add__ = __radd__ = __sub__ = __rsub__ = __truediv__ = __neg__ = _noarith
 
 
 def _bound(x, default):
@@ -176,31 +181,57 @@ def _mk(fn, name, body, ns, path):
     return ns[name]
 
 
-def load_havoc(relpath, fname, ns, symbols, cls=None, extra=(), ignore=()):
-    """<fname>__epilogue: prologue; every variable the loop assigns (plus `extra`: variables it mutates through
-    other objects, e.g. an optimiser) := symbols[name]; epilogue.
-    <fname>__body: prologue; loop-carried variables := symbols[name]; ONE pass through the loop body; returns the
-    dictionary of the variables the body assigned.  Variables in `ignore` become poison (any use raises)."""
+def load_havoc(relpath, fname, ns, make, cls=None):
+    """Name-independent loop abstraction.  Every variable the (single, top-level) loop assigns becomes a fresh free symbol
+    make(name, value before the loop) (a field variable called v_<name>; containers keep their type, see gerchberg_saxton_3d); which of them matter is read off the DATA FLOW afterwards:
+      <fname>__epilogue : prologue; havoc; statements after the loop          -> the routine's return value
+      <fname>__body     : prologue; havoc; ONE pass through the loop body     -> {name: value after the pass} for every loop-assigned name
+      <fname>__init     : prologue only                                       -> {name: value before the loop, or None if unbound}
+    The free v_* symbols occurring in the epilogue's result are the loop outputs the routine uses; the v_* symbols occurring in
+    their values after one pass are the loop-carried state.  No variable name of the source is known to the recipes."""
     fn = _fundef(relpath, fname, cls)
     pre, loop, post = split_loop(fn)
-    assigned = _stores(loop.body) | _stores([loop.target]) | set(extra)
-    # loop-assigned variables the recipe has no symbol for (temporaries, loss bookkeeping; `ignore` names the known ones) become
-    # poison after the loop: the epilogue may overwrite them but any USE raises (fail-closed), so new temporaries are harmless
-    ns['__havoc__'] = lambda n: symbols[n]() if n in symbols else _Poison(n)
-    hav = [ast.parse('%s = __havoc__(%r)' % (n, n)).body[0] for n in sorted(assigned)]
+    assigned = sorted(_stores(loop.body) | _stores([loop.target]))
+    ns['__havoc__'] = make
+    hav = [ast.parse('%s = __havoc__(%r, locals().get(%r))' % (n, n, n)).body[0] for n in assigned]
     path = os.path.join(shim.REPO, relpath)
     epi = _mk(fn, fname + '__epilogue', list(pre) + hav + list(post), ns, path)
-    carried = sorted(n for n in assigned if n in symbols)
-    ret = ast.parse('return {%s}' % ', '.join('%r: %s' % (n, n) for n in sorted(_stores(loop.body)) if n in symbols)).body[0]
-    bod = _mk(fn, fname + '__body', list(pre) + [ast.parse('%s = __havoc__(%r)' % (n, n)).body[0] for n in carried] + list(loop.body) + [ret], ns, path)
-    return epi, bod, sorted(assigned)
+    ret = ast.parse('return {%s}' % ', '.join('%r: %s' % (n, n) for n in sorted(_stores(loop.body)))).body[0]
+    bod = _mk(fn, fname + '__body', list(pre) + hav + list(loop.body) + [ret], ns, path)
+    ini = _mk(fn, fname + '__init', list(pre) + [ast.parse('__l = locals()').body[0], ast.parse('return {%s}' % ', '.join('%r: __l.get(%r)' % (n, n) for n in assigned)).body[0]], ns, path)
+    return epi, bod, ini, assigned
 
 
-class _Poison:
-    def __init__(s, n): s.__dict__['_n'] = n
-    def __getattr__(s, k): raise shim.TraceError('use of the loop-internal variable %s after the loop' % s.__dict__['_n'])
-    def __format__(s, spec): return '<%s>' % s.__dict__['_n']
-    def __str__(s): return '<%s>' % s.__dict__['_n']
+def havoc_vars(t, acc=None):
+    """names of the loop symbols (v_*) occurring in an operator term, in order of first occurrence"""
+    acc = [] if acc is None else acc
+    if isinstance(t, Op):
+        if t.op == 'var' and str(t.a[0]).startswith('v_'):
+            if t.a[0] not in acc: acc.append(t.a[0])
+        else:
+            for x in t.a: havoc_vars(x, acc)
+    elif isinstance(t, (tuple, list)):
+        for x in t: havoc_vars(x, acc)
+    return acc
+
+
+def rename(t, m):
+    """the term with loop symbols renamed to role names"""
+    if isinstance(t, Op):
+        if t.op == 'var': return Op('var', m.get(t.a[0], t.a[0]), shape=t._shape, kind=t.kind)
+        return Op(t.op, *[rename(x, m) if isinstance(x, Op) else x for x in t.a], shape=t._shape, kind=t.kind)
+    return t
+
+
+def single_state(fname, ret_terms, out, role):
+    """the loop state of a routine whose loop carries ONE field: the loop symbol the epilogue uses; after one pass its value may
+    depend on no other loop symbol.  Returns (name of the state variable, renaming)"""
+    used = havoc_vars(ret_terms)
+    if len(used) != 1: raise shim.TraceError('%s: the statements after the loop use the loop variables %s (exactly one is modelled)' % (fname, [u[2:] for u in used]))
+    x = used[0]
+    dep = havoc_vars(out[x[2:]])
+    if [d for d in dep if d != x]: raise shim.TraceError('%s: the loop-carried hologram depends on further loop state %s' % (fname, [d[2:] for d in dep if d != x]))
+    return x[2:], {x: role}
 
 
 class _Sink:
@@ -319,41 +350,56 @@ def trace_sgd(lits):
     ns.update(helper_stubs(lits))
     shim.load('odak/learn/wave/util.py', ['wavenumber'], ns)
     ns['propagate_beam'], _ = prop_stub('odak/learn/wave/classical.py', lits, log)
-    phi0 = shim.sym('phi0', (H0, W0))
+    # the tensor the routine creates and registers with its optimiser IS the free symbol phi: whatever in-place updates the
+    # optimiser applied, its value after the loop is arbitrary (whichever local name holds it)
+    phi = var('phi', (H0, W0), kind='rfld')
     owned = []
     t = ns['torch'].__dict__
-    t['randn_like'] = lambda x, **k: phi0
+    t['randn_like'] = lambda x, **k: phi
     optim = types.SimpleNamespace(Adam=lambda params, **k: (owned.extend(params), _Sink())[1])
     t['optim'] = optim
     t['nn'].__dict__['MSELoss'] = lambda **k: _Sink()
-    phi = var('phi', (H0, W0), kind='rfld')
-    syms = {'phase': lambda: phi}
-    epi, _, assigned = load_havoc('odak/learn/wave/classical.py', 'stochastic_gradient_descent', ns, syms, extra=['phase'],
-                                  ignore=['i', 'hologram', 'reconstruction', 'reconstruction_intensity', 'loss', 'description'])
+    epi, _, _, assigned = load_havoc('odak/learn/wave/classical.py', 'stochastic_gradient_descent', ns, lambda n, cur=None: var('v_' + n, (H0, W0)))
     lam, z, dx = shim.var('lam'), shim.var('z'), shim.var('dx')
     target = shim.sym('target', (H0, W0))
     holo, rec = epi(target, lam, z, dx, propagation_type=PTYPE, n_iteration=1, loss_function=None, learning_rate=0.1)
-    if len(owned) != 1 or owned[0] is not phi0:
+    if len(owned) != 1 or owned[0] is not phi:
         raise shim.TraceError('stochastic_gradient_descent: the optimiser owns something else than the phase variable')
+    used = havoc_vars((holo, rec))
+    if used: raise shim.TraceError('stochastic_gradient_descent returns values of the loop variables %s instead of recomputing them from the optimised phase' % [u[2:] for u in used])
     return [('t_sgd_holo', '(phi : rfld)', 'fld', coq(holo)), ('t_sgd_rec', '(phi : rfld)', 'fld', coq(rec))], {'loop_assigns': assigned}
 
 
 def trace_gs_torch(lits):
+    """roles from the data flow: `hol` is the loop variable the routine returns, `rec` the loop-carried variable its new value is
+    computed from; the loop state of the model is the pair (hol, rec)"""
     ns = _common(shim.base_namespace())
     log = []
     ns.update(helper_stubs(lits))
     shim.load('odak/learn/wave/util.py', ['wavenumber'], ns)
     ns['propagate_beam'], _ = prop_stub('odak/learn/wave/classical.py', lits, log)
-    Hh, Rr = var('hol', (H0, W0)), var('rec', (H0, W0))
-    syms = {'hologram': lambda: Hh, 'reconstruction': lambda: Rr}
-    epi, bod, assigned = load_havoc('odak/learn/wave/classical.py', 'gerchberg_saxton', ns, syms, ignore=['i'])
+    epi, bod, ini, assigned = load_havoc('odak/learn/wave/classical.py', 'gerchberg_saxton', ns, lambda n, cur=None: var('v_' + n, (H0, W0)))
     lam, z, dx = shim.var('lam'), shim.var('z'), shim.var('dx')
     field = var('field', (H0, W0))
     h, r = epi(field, 1, z, dx, lam, propagation_type=PTYPE)
     out = bod(field, 1, z, dx, lam, propagation_type=PTYPE)
+    start = ini(field, 1, z, dx, lam, propagation_type=PTYPE)
+    if not (isinstance(h, Op) and h.op == 'var' and h.a[0].startswith('v_')):
+        raise shim.TraceError('gerchberg_saxton: the returned hologram is not a loop variable')
+    X = h.a[0]
+    if [u for u in havoc_vars(r) if u != X]: raise shim.TraceError('gerchberg_saxton: the returned reconstruction uses loop variables other than the returned hologram')
+    dep = [d for d in havoc_vars(out[X[2:]]) if d != X]
+    if len(dep) != 1: raise shim.TraceError('gerchberg_saxton: the new hologram is computed from the loop variables %s (one carried reconstruction is modelled)' % [d[2:] for d in dep])
+    Y = dep[0]
+    if [d for d in havoc_vars(out[Y[2:]]) if d not in (X, Y)]: raise shim.TraceError('gerchberg_saxton: further loop state')
+    m = {X: 'hol', Y: 'rec'}
+    init_rec = start.get(Y[2:])
+    if init_rec is None: raise shim.TraceError('gerchberg_saxton: the carried reconstruction is unbound before the loop')
+    if start.get(X[2:]) is not None: raise shim.TraceError('gerchberg_saxton: the hologram is bound before the loop (the model starts it unbound)')
     args = '(field hol rec : fld)'
-    return [('t_gst_epi_holo', args, 'fld', coq(h)), ('t_gst_epi_rec', args, 'fld', coq(r)),
-            ('t_gst_body_holo', args, 'fld', coq(out['hologram'])), ('t_gst_body_rec', args, 'fld', coq(out['reconstruction']))], {'loop_assigns': assigned}
+    return [('t_gst_epi_holo', args, 'fld', coq(rename(h, m))), ('t_gst_epi_rec', args, 'fld', coq(rename(r, m))),
+            ('t_gst_body_holo', args, 'fld', coq(rename(out[X[2:]], m))), ('t_gst_body_rec', args, 'fld', coq(rename(out[Y[2:]], m))),
+            ('t_gst_init_rec', args, 'fld', coq(_field_arg(init_rec, lits, 'field')))], {'loop_assigns': assigned, 'roles': {'hol': X[2:], 'rec': Y[2:]}}
 
 
 def trace_gs_numpy(lits, h, w):
@@ -366,18 +412,16 @@ def trace_gs_numpy(lits, h, w):
     ns['zero_pad'] = lambda x, *a, **k: Op('padf', x.shape[0], x.shape[1], x, shape=(2 * x.shape[0], 2 * x.shape[1]), kind=x.kind)
     ns['add_random_phase'] = lambda x: var('H0', x.shape)
     ns['add_phase'] = lambda x, p: var('H0', x.shape)
-    Hh = var('H', (2 * h, 2 * w))
-    syms = {'hologram': lambda: Hh}
-    epi, bod, assigned = load_havoc('odak/wave/classical.py', 'gerchberg_saxton', ns, syms, ignore=['i', 'reconstruction', 'new_target'])
+    epi, bod, ini, assigned = load_havoc('odak/wave/classical.py', 'gerchberg_saxton', ns, lambda n, cur=None: var('v_' + n, (2 * h, 2 * w)))
     lam, z, dx = shim.var('lam'), shim.var('z'), shim.var('dx')
     field = var('field', (h, w))
-    target_amp = Op('amp_f', field, shape=(h, w), kind='rfld')
-    ns['calculate_amplitude_outer'] = None
     ho, re = epi(field, 1, z, dx, lam, propagation_type=PTYPE)
     out = bod(field, 1, z, dx, lam, propagation_type=PTYPE)
+    X, m = single_state('gerchberg_saxton', (ho, re), out, 'H')
+    ho, re, body = rename(ho, m), rename(re, m), rename(out[X], m)
     win = None
     if ho.op == 'slice': win = list(ho.a[:4])
-    return ho, re, out['hologram'], win, assigned
+    return ho, re, body, win, assigned
 
 
 def gs_numpy_defs(lits, sizes):
@@ -438,16 +482,20 @@ def trace_gs3d(lits, h, w):
         if isinstance(x, Op) and x.kind == 'rfld': return Op('rabs_f', x, shape=x.shape, kind='rfld')
         raise shim.TraceError('np.abs of a complex field term')
     n['abs'] = npabs
-    Hh = var('H', (2 * h, 2 * w))
-    syms = {'hologram': lambda: Hh}
-    epi, bod, assigned = load_havoc('odak/wave/classical.py', 'gerchberg_saxton_3d', ns, syms,
-                                    ignore=['i', 'distance_id', 'distance', 'reconstruction', 'target_current', 'new_target', 'hologram_layer', 'holograms', 'alpha', 'beta', 'gamma', 'amplitude_current'])
+    def make(nm, cur=None):
+        if isinstance(cur, _Planes):                 # a per-plane buffer the loop fills slot by slot: arbitrary contents, same container
+            p = _Planes(len(cur.items), cur.shape2)
+            p.items = [var('v_%s_%d' % (nm, k), cur.shape2) for k in range(len(cur.items))]
+            return p
+        return var('v_' + nm, (2 * h, 2 * w))
+    epi, bod, ini, assigned = load_havoc('odak/wave/classical.py', 'gerchberg_saxton_3d', ns, make)
     lam, dx = shim.var('lam'), shim.var('dx')
     fields = [var('f0', (h, w)), var('f1', (h, w))]
     dist = [shim.var('z'), shim.var('ds')]
     ho = epi(fields, 1, dist, dx, lam, propagation_type=PTYPE)
     out = bod(fields, 1, dist, dx, lam, propagation_type=PTYPE)
-    return ho, out['hologram'], assigned
+    X, m = single_state('gerchberg_saxton_3d', ho, out, 'H')
+    return rename(ho, m), rename(out[X], m), assigned
 
 
 def gs3d_defs(lits, sizes):
@@ -477,12 +525,12 @@ def trace_multiplane_loop(lits):
         calls.append(1); return phi
     me.double_phase_constrain = dpc
     me.model = lambda x, channel_id=None, depth_id=None: Op('MODEL', int(depth_id), x, shape=x.shape)
-    epi, bod, assigned = load_havoc('odak/learn/wave/legacy.py', 'gradient_descent', ns, {'hologram': lambda: Hh}, cls='multiplane_hologram_optimizer',
-                                    ignore=['step', 'plane_id', 'phase', 'amplitude', 'reconstruction', 'reconstruction_intensity', 'loss', 'description'])
+    epi, bod, ini, assigned = load_havoc('odak/learn/wave/legacy.py', 'gradient_descent', ns, lambda nm, cur=None: var('v_' + nm, (H0, W0)), cls='multiplane_hologram_optimizer')
     ret = epi(me)
     out = bod(me)
     if not calls: raise shim.TraceError('the loop does not constrain the phase')
-    return [('t_mp_gd_ret', '(H : fld)', 'fld', coq(ret)), ('t_mp_loop_holo', '(phi : rfld)', 'fld', coq(out['hologram']))], {'loop_assigns': assigned}
+    X, m = single_state('gradient_descent', ret, out, 'H')
+    return [('t_mp_gd_ret', '(H : fld)', 'fld', coq(rename(ret, m))), ('t_mp_loop_holo', '(phi : rfld)', 'fld', coq(rename(out[X], m)))], {'loop_assigns': assigned}
 
 
 BITS = (1, 3, 8)
@@ -537,7 +585,7 @@ def trace_multiplane(lits):
         def clone(s): return s
         def __setitem__(s, i, v): s.items[int(i)] = v
     t = ns['torch'].__dict__
-    t['zeros'] = lambda *a, **k: Stack(a[0])
+    t['zeros'] = lambda *a, **k: Stack((a[0] if isinstance(a[0], (tuple, list)) else a)[0])
     model_calls = []
     def model(x, channel_id=None, depth_id=None):
         if channel_id != 0: raise shim.TraceError('model called with channel %r' % (channel_id,))
